@@ -10,6 +10,7 @@ published layouts drives real values created by a Rust static library built from
  kind 7 tags    rows 'k v'               COption/CResult written by Rust, read through {tag, payload}
  kind 9 cb(C)  rows 'stop item..'       a callback BUILT BY C {context, func}, fed by Rust (feed_into)       -> count ; delivered ; not offered
  kind 10 it(C) rows 'n script..'        an iterator BUILT BY C {iter, func: 0 = item}, advanced by Rust       -> '1 v' / '0 0' per call
+ kind 11 arc(C) row 'v n'               an arc BUILT BY C as a handle table (clone_fn returns a DISTINCT handle), cloned n times / read / released by Rust -> sum ; clone_fn runs ; drop_fn runs
  kind 8 sizes   sizeof/_Alignof of the C declarations vs size_of/align_of of the Rust types
 elem: 0 = 1 byte, 1 = 8 bytes (heap-owning token in vec, u64 elsewhere), 4 = 3-byte struct, 5 = 16-byte struct aligned to 16."""
 import os
@@ -70,13 +71,26 @@ def model_line(l):
         return vlib.case_line([15], [[0, 0, r[0], 3] + r[1:] for r in ops])
     if kind == 5 or kind == 10:
         return vlib.case_line([15], [[1, r[0]] + [0] * r[0] + r[1:] for r in ops])
+    if kind == 11:      # an arc built by C: one creation in module 1, n clones (each of the latest handle), then every handle released (calls view of C10)
+        v, n = ops[0][0], (ops[0][1] if len(ops[0]) > 1 else 0)
+        return vlib.case_line([210], [[0, 1, v]] + [[6, i] for i in range(n)])
     if kind == 9:       # a callback built by C, fed by Rust's FeedCallback::feed_into (method 2 of the feed model)
         return vlib.case_line([15], [[0, 0, r[0], 2] + r[1:] for r in ops])
     return l
 
 
 def compare(l, impl_rows, model_rows):
-    hdr, _ = vlib.parse_case(l)
+    hdr, ops0 = vlib.parse_case(l)
+    if hdr[1] == 11:
+        # model rows alternate [result] ; [runs of module 1's clone fn, runs of its drop fn]: their totals, and the value read through n+1 handles
+        try:
+            mr = [[int(x) for x in r.split()] for r in (model_rows or "").split(" ; ")]
+            calls = mr[1::2]
+            v, n = ops0[0][0], (ops0[0][1] if len(ops0[0]) > 1 else 0)
+            want = "%d %d %d" % ((n + 1) * v, sum(c[0] for c in calls), sum(c[1] for c in calls))
+        except Exception:
+            return False
+        return impl_rows.strip() == want
     if hdr[1] == 3 and hdr[2] != 1 and model_rows is not None:
         rows = model_rows.split(" ; ") if model_rows else []
         rows = [r if i % 2 == 0 else "" for i, r in enumerate(rows)]   # plain element types have no destructor to observe
@@ -109,6 +123,8 @@ def gen_cases(rng, tier):
             for nops in range(1, 6):
                 cases.append("16 5 %d | %s" % (elem, " ".join(map(str, [nops] + sc))))
                 cases.append("16 10 %d | %s" % (elem, " ".join(map(str, [nops] + sc))))        # the reverse direction: the iterator is built by C
+    for nn in list(range(0, 9)) + [17, 64]:
+        cases.append("16 11 0 | %d %d" % (rng.range(1, 10 ** 6), nn))
     for _ in range(n):
         elem = rng.choice([0, 1, 4, 5])
         # vec scripts
